@@ -252,6 +252,27 @@ def get_plan(pid):
                                       "normal form of the rendered marker (no empty/universal child) - C15", "atom and atom-group renderings are covered by the bounded part"],
                         explanation="proof part: the structural reason why re-parsing a rendered compound gives the same meaning (no unparenthesised or-join inside an and-join, no <empty>/'' token inside); "
                                     "bounded part: str() of every result of the marker sweep re-parsed by parse_marker and packaging.Marker and re-evaluated on the environment grid")
+    if pid in ("C06", "C04"):
+        R = "dep_logic.specifiers.range:RangeSpecifier."
+        targets = ["dep_logic.utils:pad_zeros", "dep_logic.utils:first_different_index", R + "_simplified_form", R + "__str__",
+                   "dep_logic.specifiers.union:UnionSpecifier._simplified_form", "dep_logic.specifiers:_release_series", "dep_logic.specifiers:_from_pkg_specifier"]
+        if pid == "C04":
+            targets = targets[-2:]
+        plan = JobsPlan(pid, [(t, "render_function", {"name": t}) for t in targets], rtc=["spec_text"], level="other",
+                        technique="contracts over structured versions (T-VER): pad_zeros, first_different_index (loop invariant), RangeSpecifier._simplified_form/__str__ and UnionSpecifier._simplified_form "
+                                  "(what each rendered clause form must denote), _release_series and _from_pkg_specifier (the interval each PEP 440 clause denotes); z3 with deterministic instantiation; "
+                                  "text round trip / membership against packaging as bounded part",
+                        trusted_base=["A-ENGINE", "A-VER: suffix-free versions with equal epoch and equal zero-padded release are the same version; Version ==/< read one total order",
+                                      "A-PKG-PARSE: Version(str(v)) == v, Version('E!a.b.c') has that epoch/release and no suffix, str(Specifier) re-parses to an equal one, SpecifierSet splits on commas",
+                                      "C01/C05 for the algebra between leaves and rendering", "A-TERM"],
+                        assumptions=["the clause 'the bounds of a rendered !=X.* are exactly X.0 and (X+1).0' is not decided by proof (instantiation does not converge on shifted views of padded lists): bounded only",
+                                     "UnionSpecifier.__str__ ('||'.join of the range texts) and from_specifierset/parse_version_specifier folds are covered by the bounded part",
+                                     "C04: final-release candidates and packaging's contains() are the bounded part (A-PKG-CONTAINS)"],
+                        explanation="proof part: rendering forms and leaf translation are structurally what PEP 440 says (obligations C06.range.*, C06.union.*, C06.release-series.*, C04.leaf.*); "
+                                    "bounded part: str()/parse round trip and membership against packaging over the version-text grammar, boundary-shape catalogue and expression trees")
+        marks = ("C04.leaf",) if pid == "C04" else ("C06.", "pad_zeros#", "first_different_index#")
+        plan.own = lambda name, marks=marks: any(m in name for m in marks) or "#raises." in name or "#cover" in name or "#subset" in name
+        return plan
     if pid == "C10":
         return JobsPlan("C10", [("C10.frame", "memo_frame", {})], rtc=["memo"], level="other",
                         technique="frame (read-set) analysis of every memoised function from the AST: uncompared fields reachable through the key parameters, and uncompared fields of returned key objects "
